@@ -92,6 +92,13 @@ CHECKS.update({
    text="Proof (partial): rendering facts of the call hybrid (execute then set the temporary from ret_val with the declared signedness/width); calling-convention theorems are in progress and not claimed until they build. " + "Tie: for every program of this run the denoted tree of the REAL output equals the tree of the Lean hybrid lowering model (Model/CompileH.lean, code configuration); search: Lean executes the effectful C semantics (Model/CSemH.lean) and the real effect on boundary + pseudo-random states. Failures in a listed carve-out class are KNOWN-FINDINGs, anything else a violation. " + "Programs: calls of every bundled sub-routine with all argument type combinations, nested calls, 1..4 calls per expression, calls in dead ?: arms; the REAL compiled bodies of the sub-routines are executed by Lean for the callee; per-output sort/well-formedness/linearity problems of every compiled sub-routine body count as violations; long-lived compiler instances (temporary numbering continues).",
    note=TB + "callee semantics: the real compiled body executed in the caller's flat IL namespace (as RzIL does); C side of bundled sub-routines: Model/CSemH.lean builtinSub (hand-written from sub_routines.json, conv_round by its C text).", technique="Lean 4 lowering model + lemmas; tie by tree equality with real output; Lean-executed C-vs-IL search incl. real callee bodies", ref="DESIGN.md section 4, C08"),
 })
+CHECKS.update({
+ "C07": dict(
+   text="Proof: kernel-decided facts about the architectural binding table bindingSpec over the FULL finite spelling spaces enumerated from the REGENERATED grammar terminals (272 letter spellings = 8 classes x 17 access spellings x V/N, 8 immediates, 320 explicit singles): new_flag_iff_new_spelling, kind_new_iff_new_spelling, width_by_class (R/C/M/N 32, P 8, pairs double, signed), imm_signed_iff_rRsS, slot_letter_is_access_letter, explicit_number_and_class, opvar_injective, opvar_matches_semantic_model; for ALL alias names alias_binding, pc_binding; read_touches_named_cell (the semantic model reads the state cell keyed by the table's operand variable, .new bank for .new/destination-only). Tie: exhaustive correspondence over the spelling space enumerated from the grammar Lark loaded (must coincide with Lean's enumeration): for every spelling naming an architectural resource the real compiler compiles a read probe, a write probe and two-operand probes (same letter V/N, single/pair, other class, X/X_NEW; both orders); Lean parses the RAW text and compares the slot declaration (function, letter / number+class / alias enum, .new flag) and the denoted tree (type made visible by a cast to the specified type) with the table; loads/stores/jumps/PC through the lowering model (tree equality) and Lean-executed C-vs-IL search; the program generator's operand tables are checked against the table.",
+   note=TB + "bindingSpec is a hand-written specification (modelled, not verified against the Hexagon PRM); the plugin contract (ISA2REG/EXPLICIT2OP/ALIAS2OP/NREG2OP/ISA2IMM resolve what they are asked) is assumed; explicit pairs are sampled in quick (all architectural pairs + 300 random of 6400), all in thorough.",
+   technique="Lean 4 decide over a finite specification table enumerated from the regenerated grammar + exhaustive probe correspondence with the real compiler",
+   ref="DESIGN.md section 4, C07"),
+})
 NOT_YET = {}
 ALL = [f"C{i:02d}" for i in range(1, 21)]
 def main():
